@@ -116,7 +116,8 @@ pub fn gen_stmt(rng: &mut Rng) -> GenStmt {
             GenStmt { head, tail: format!(" WHERE {}", gen_sql_expr(rng, 2, Ty::Bool, &sch, true)), kind, refs: None }
         }
         Kind::Agg => {
-            let group: Option<&str> = if rng.chance(2, 3) { Some(*rng.pick(&["k", "u.k", "y", "t.v", "u.v", "s"])) } else { None };
+            // single keys and pairs of keys that carry the SAME column name on the two sides (`t.v, u.v`): each qualified name is its own key
+            let group: Option<&str> = if rng.chance(2, 3) { Some(*rng.pick(&["k", "u.k", "y", "t.v", "u.v", "s", "t.v, u.v", "u.k, t.k", "t.v, u.v"])) } else { None };
             let mut items: Vec<String> = Vec::new();
             if let Some(g) = group { if rng.chance(3, 4) { items.push(g.to_owned()); } }
             for _ in 0..rng.below(3) + 1 {
